@@ -381,7 +381,38 @@ def stream_ros_bw(rng, n):
         ops.append(f"bw {gen.supply_str(gen_ros_supply(rng))} {workload_str(cbs, sub)} {gen.gen_limit(rng)}")
     return ops
 
+def stream_xcurve(rng, n):
+    ops = []
+    for _ in range(n):
+        d = gen.gen_dmin(rng, maxlen=5)
+        nops = rng.randint(1, 30)
+        toks, iters = [], 0
+        for j in range(nops):
+            c = rng.random()
+            if c < 0.4:
+                toks.append(f"na {wchoice(rng, [(3, rng.randint(0, 60)), (1, rng.randint(60, 600))])}")
+            elif c < 0.55 or iters == 0:
+                toks.append("it")
+                iters += 1
+            else:
+                toks.append(f"nx {rng.randrange(iters + (1 if rng.random() < 0.03 else 0))}")
+        ops.append(f"xops {gen.lst(d)} {nops} " + " ".join(toks))
+    return ops
+
+
+def stream_xcost(rng, n):
+    ops = []
+    for _ in range(n):
+        w = gen.gen_cost_vec(rng, wf=(rng.random() < 0.9))
+        nops = rng.randint(1, 25)
+        toks = [(f"coj {rng.randint(0, 30)}" if rng.random() < 0.6 else f"lw {rng.randint(0, 30)}") for _ in range(nops)]
+        ops.append(f"xcops {gen.lst(w)} {nops} " + " ".join(toks))
+    return ops
+
+
 STREAMS = {
+    "xcurve": (stream_xcurve, None),
+    "xcost": (stream_xcost, None),
     "fp": (stream_fp, analysis_phase2),
     "edf": (stream_edf, analysis_phase2),
     "fifo": (stream_fifo, analysis_phase2),
